@@ -27,7 +27,8 @@ ASSUMPTIONS = [
 ]
 
 HOSTILE = ['"', ";", "=", ",", "%", "\\", "[", "]", ":", "@", " ", "\t", "\x80", "\xff", "a", "1", "-", "/", "*"]
-NUMS = ["", "-1", "0" * 5000 + "1", "9" * 5000, "9" * 20, "99999", "4294967296", "0000", "١", "1e5", "0x10", " 7", "+3"]
+NUMS = ["", "-1", "0" * 5000 + "1", "9" * 5000, "9" * 20, "99999", "4294967296", "0000", "١", "1e5", "0x10", " 7", "+3",
+        "10\xb9", "\xb2", "1\xbc", "\u0661\u0662", "1_0", "１２"]  # characters str.isdigit()/isdecimal() accept but int() may not (superscripts, fractions, other scripts' digits)
 LONG = "x" * 3000
 
 BASES = {
@@ -198,6 +199,17 @@ def path_variants(tier):
             seen.add(v)
             yield v
     yield ""
+    # lengths around the file system's limits: one component of 240..260 bytes (NAME_MAX = 255, also after ".html" or
+    # "/index.html" is appended), a whole path of 3990..4110 bytes (PATH_MAX = 4096, the served directory's own length included)
+    for n in range(240, 261):
+        yield "/" + "a" * n
+        yield "/a/" + "é" * (n // 2)
+        yield "/" + "a" * n + "/"
+        yield "/" + "a" * n + ".html"
+    for total in range(3990, 4111, 3 if tier == "quick" else 1):
+        segs = ["d" * 200] * (total // 201)
+        tail = total - 201 * len(segs) - 1
+        yield "/" + "/".join(segs) + ("/" + "t" * tail if tail > 0 else "")
 
 
 def query_variants():
